@@ -301,6 +301,8 @@ def run(ctx):
     r3_creation(ctx, prog)
     r4_gate(ctx, prog)
     r5_find(ctx, prog)
+    from rules import c11
+    c11.r5_predicates(ctx, prog, rule_id='C01.R6')
 
 
 MUTANTS = [
